@@ -93,6 +93,19 @@ func (frd FirewallRuleData) ParseFirewallRule() (FirewallRuleFunc, error) {
 		}
 	}
 
+	for _, fp := range []struct{ field, pattern string }{
+		{"fromnode", fr.FromNode},
+		{"tonode", fr.ToNode},
+		{"fromservice", fr.FromService},
+		{"toservice", fr.ToService},
+	} {
+		if strings.HasPrefix(fp.pattern, "/") {
+			if _, err := regexCompare(fp.field, fp.pattern); err != nil {
+				return nil, fmt.Errorf("invalid firewall rule. %s: %s", fp.field, err)
+			}
+		}
+	}
+
 	comps := fr.BuildComps()
 	fwr, err := firewallRule(comps, fr.Action)
 	if err != nil {
@@ -173,10 +186,10 @@ func stringCompare(field string, value string) (CompareFunc, error) {
 }
 
 func regexCompare(field string, value string) (CompareFunc, error) {
-	if value[0] != '/' || value[len(value)-1] != '/' {
+	if len(value) < 2 || value[0] != '/' || value[len(value)-1] != '/' {
 		return nil, fmt.Errorf("regex not enclosed in //")
 	}
-	value = fmt.Sprintf("^%s$", value[1:len(value)-1])
+	value = fmt.Sprintf("^(?:%s)$", value[1:len(value)-1])
 	re, err := regexp.Compile(value)
 	if err != nil {
 		return nil, fmt.Errorf("regex failed to compile: %s", value)
